@@ -13,6 +13,7 @@ from typing import Dict, FrozenSet, Iterable, List, Optional, Set, Tuple
 
 from .core import AnalysisError, Cls, Func, Repo, dotted, norm, walk_no_nested
 from .callgraph import CallGraph, Site
+from .util import enclosing_trys
 
 
 # library exception classes -> their bases (names as they appear after import resolution)
@@ -208,6 +209,7 @@ class Escape:
         self.esc: Dict[str, Dict[Tuple[str, int], Tuple[Source, Optional[Site], Optional[str]]]] = {}
         self.discharged: Dict[int, List[Tuple[str, str, str]]] = {}   # id(source) -> [(exc, in func, handler text)]
         self._src_index: Dict[int, Source] = {}
+        self.t9_instances: List[str] = []      # separator-strip idioms examined (discharged or not)
         self._collect_sources()
         self._fixpoint()
 
@@ -339,6 +341,12 @@ class Escape:
                 self.sources.append(src)
                 for c in src.excs:
                     items.append((src.node, c, src))
+            # T9: the separator-strip idiom (`r = []`; `for x in S: r.append(..); r.append(', ')`; `del r[-1]`): IndexError when S is empty,
+            #     unless S is tested non-empty after its last re-binding (in the function, or - for a parameter - at every call site)
+            for src in self._separator_strips(f):
+                self.sources.append(src)
+                for c in src.excs:
+                    items.append((src.node, c, src))
             # T2: declared raises of the function itself (abstract / documented contract)
             if f.qn in self.declared:
                 src = Source(f, f.node, list(self.declared[f.qn]), 'declared contract', 'T2')
@@ -454,6 +462,122 @@ class Escape:
         if isinstance(p, ast.Compare) and any(isinstance(o, (ast.Lt, ast.Gt, ast.LtE, ast.GtE)) for o in p.ops):
             return 'ordering comparison'
         return None
+
+    @staticmethod
+    def _fresh_nonempty_test(cfg, f: Func, name: str, use: ast.stmt) -> bool:
+        """A test mentioning `name` dominates `use` and `name` is not re-bound between that test and `use`."""
+        stores = [n for n in f.walk() if isinstance(n, ast.Name) and isinstance(n.ctx, ast.Store) and n.id == name]
+        for t, _pol in cfg.dominating_tests(use):
+            if not any(isinstance(x, ast.Name) and x.id == name for x in ast.walk(t)):
+                continue
+            stale = False
+            for st_ in stores:
+                try:
+                    ss = cfg.stmt_of(st_)
+                except AttributeError:
+                    continue
+                if cfg.before(t, st_) and (ss is use or id(use) in cfg.reachable(ss)):
+                    stale = True
+            if not stale:
+                return True
+        return False
+
+    def _separator_strips(self, f: Func) -> List['Source']:
+        from .cfg import CFG
+        out: List[Source] = []
+        if isinstance(f.node, ast.Lambda):
+            return out
+        stores: Dict[str, int] = {}
+        for n in f.walk():
+            if isinstance(n, ast.Name) and isinstance(n.ctx, ast.Store):
+                stores[n.id] = stores.get(n.id, 0) + 1
+        empties = {}
+        for n in f.walk():
+            if isinstance(n, (ast.Assign, ast.AnnAssign)) and isinstance(n.value, ast.List) and not n.value.elts:
+                for t in (n.targets if isinstance(n, ast.Assign) else [n.target]):
+                    if isinstance(t, ast.Name) and stores.get(t.id) == 1:
+                        empties[t.id] = n
+        if not empties:
+            return out
+        cfg = None
+        for d in f.walk():
+            # the strip: `del r[-1]` / `r.pop()` as a statement of its own
+            r = None
+            if isinstance(d, ast.Delete) and len(d.targets) == 1 and isinstance(d.targets[0], ast.Subscript) and isinstance(d.targets[0].value, ast.Name) and \
+                    isinstance(d.targets[0].slice, ast.UnaryOp) and isinstance(d.targets[0].slice.op, ast.USub):
+                r = d.targets[0].value.id
+            elif isinstance(d, ast.Expr) and isinstance(d.value, ast.Call) and isinstance(d.value.func, ast.Attribute) and d.value.func.attr == 'pop' and \
+                    not d.value.args and isinstance(d.value.func.value, ast.Name):
+                r = d.value.func.value.id
+            if r is None or r not in empties:
+                continue
+            # every mutation of r sits in the body of ONE for loop that does not contain the strip
+            muts = [c for c in f.walk() if isinstance(c, ast.Call) and isinstance(c.func, ast.Attribute) and c.func.attr in ('append', 'extend', 'insert') and
+                    isinstance(c.func.value, ast.Name) and c.func.value.id == r]
+            loops = set()
+            for c in muts:
+                q = getattr(c, '_parent', None)
+                while q is not None and q is not f.node and not isinstance(q, (ast.For, ast.AsyncFor, ast.While)):
+                    q = getattr(q, '_parent', None)
+                loops.add(id(q) if isinstance(q, (ast.For, ast.AsyncFor)) else None)
+            if not muts or len(loops) != 1 or None in loops:
+                continue
+            loop = next(n for n in f.walk() if id(n) in loops)
+            if any(x is d for x in ast.walk(loop)):
+                continue
+            it = loop.iter
+            while isinstance(it, ast.Call) and isinstance(it.func, ast.Name) and it.func.id in ('reversed', 'sorted', 'list', 'tuple', 'enumerate') and it.args:
+                it = it.args[0]
+            if not isinstance(it, ast.Name):
+                continue
+            seq = it.id
+            self.t9_instances.append(f'{f.qn} :: {r} <- {seq}')
+            if cfg is None:
+                cfg = CFG(f)
+            if any(h.type is None or any(isinstance(x, ast.Name) and x.id in ('IndexError', 'LookupError', 'Exception') for x in ast.walk(h.type))
+                   for t in enclosing_trys(d, f.node) for h in t.handlers):
+                continue
+            if self._fresh_nonempty_test(cfg, f, r, d) or self._fresh_nonempty_test(cfg, f, seq, d):
+                continue
+            params = [a.arg for a in f.params()]
+            if seq in params and stores.get(seq, 0) == 0:
+                # the requirement moves to the call sites
+                pos = params.index(seq)
+                sites = self.cg.callers.get(f.qn, [])
+                bad = None
+                for s_ in sites:
+                    call = s_.node
+                    if not isinstance(call, ast.Call):
+                        bad = s_
+                        break
+                    arg = None
+                    off = 1 if (f.cls is not None and params and params[0] in ('self', 'cls') and isinstance(call.func, ast.Attribute)) else 0
+                    if pos - off < len(call.args) and pos - off >= 0:
+                        arg = call.args[pos - off]
+                    for kw in call.keywords:
+                        if kw.arg == seq:
+                            arg = kw.value
+                    if isinstance(arg, (ast.List, ast.Tuple)) and arg.elts and not any(isinstance(e, ast.Starred) for e in arg.elts):
+                        continue
+                    if not isinstance(arg, ast.Name):
+                        bad = s_
+                        break
+                    ccfg = CFG(s_.func)
+                    try:
+                        use = ccfg.stmt_of(call)
+                    except AttributeError:
+                        bad = s_
+                        break
+                    if not self._fresh_nonempty_test(ccfg, s_.func, arg.id, use):
+                        bad = s_
+                        break
+                if sites and bad is None:
+                    continue
+                where = f' (not established by the caller {bad.func.qn})' if bad is not None else ' (no call site found)'
+                out.append(Source(f, d, ['IndexError'], f'trailing separator stripped from a list filled by a loop over a parameter that may be empty{where}', 'T9'))
+            else:
+                out.append(Source(f, d, ['IndexError'], 'trailing separator stripped from a list filled by a loop over a sequence that may be empty', 'T9'))
+        return out
 
     def _dynamic_module_attrs(self, f: Func) -> List['Source']:
         from .cfg import CFG
@@ -803,10 +927,10 @@ class Escape:
         e = Escape(repo, _CG(repo), {}, {})
         got = {(s.func.name, s.kind) for s in e.sources}
         problems = []
-        for want in (('bad_arith', 'T4'), ('bad_attr', 'T4'), ('bad_format', 'T1'), ('bad_var', 'T4'), ('bad_unpack', 'T5'), ('bad_pop', 'T7'), ('bad_mapget', 'T4'), ('bad_modattr', 'T8')):
+        for want in (('bad_arith', 'T4'), ('bad_attr', 'T4'), ('bad_format', 'T1'), ('bad_var', 'T4'), ('bad_unpack', 'T5'), ('bad_pop', 'T7'), ('bad_mapget', 'T4'), ('bad_modattr', 'T8'), ('bad_strip', 'T9'), ('stale_strip', 'T9')):
             if want not in got:
                 problems.append(f'fixture source {want} not detected')
-        for ok_name, k in (('good_arith', 'T4'), ('good_var', 'T4'), ('good_unpack', 'T5'), ('good_pop', 'T7'), ('good_mapget', 'T4'), ('good_modattr', 'T8')):
+        for ok_name, k in (('good_arith', 'T4'), ('good_var', 'T4'), ('good_unpack', 'T5'), ('good_pop', 'T7'), ('good_mapget', 'T4'), ('good_modattr', 'T8'), ('good_strip', 'T9')):
             if (ok_name, k) in got:
                 problems.append(f'guarded fixture {ok_name} wrongly flagged')
         return problems
